@@ -122,17 +122,21 @@ class Interp:
                 # the statement is evaluated again under each decision: give its reads the same ids again, so that the
                 # recorded condition speaks about the reads of the path it is recorded on
                 base.counter[0] = mark
-                prior = [pol for c, pol in base.conds if c.desc == nf.cond.desc]
+                # `not C` is a decision about C: conditions are recorded (and looked up) in their positive form
+                core, flip = nf.cond, False
+                while isinstance(core.info.get("neg"), BoolVal):
+                    core, flip = core.info["neg"], not flip
+                prior = [pol for c, pol in base.conds if c.desc == core.desc]
                 if prior:
                     # the same atomic condition was decided earlier on this path: stay consistent
                     b = _fork(base)
-                    b.decisions[id(nf.node)] = prior[-1]  # type: ignore[attr-defined]
+                    b.decisions[id(nf.node)] = prior[-1] != flip  # type: ignore[attr-defined]
                     work.append(b)
                     continue
                 for d in (True, False):
                     b = _fork(base)
                     b.decisions[id(nf.node)] = d  # type: ignore[attr-defined]
-                    b.conds.append((nf.cond, d))
+                    b.conds.append((core, d != flip))
                     work.append(b)
         return out
 
